@@ -419,6 +419,44 @@ func arrive() {
 	}
 }
 
+// SpawnHook starts the goroutine of a task created by Go (set by sim.RunOne:
+// the goroutine must be known to the run's wait group and panic handler).
+var SpawnHook func(id int, fn func())
+
+var cGoTask = RegisterCounter("task_started_by_the_library")
+
+// Go replaces the go statement in the rewritten sources: inside a simulation
+// the new goroutine becomes a task of the scheduler; outside it is a plain
+// goroutine.
+//
+//go:norace
+func Go(fn func()) {
+	if !active || SpawnHook == nil {
+		go fn()
+		return
+	}
+	if nBlockedReal > 0 {
+		arrive()
+	}
+	if ntasks >= MaxTasks {
+		// no task slot left: running the function to its end right here is one
+		// of the schedules the go statement allows
+		fn()
+		return
+	}
+	id := ntasks
+	ntasks++
+	state[id] = tRunnable
+	idle[id] = false
+	waitKey[id] = 0
+	wakeAt[id] = 0
+	lastSite[id] = -1
+	prio[id] = 5 - id // below the initial tasks under PCT
+	blockedReal[id] = false
+	count(cGoTask)
+	SpawnHook(id, fn)
+}
+
 // RealDeadlock reports whether the run ended with a task blocked outside the
 // simulator that nothing can release (its goroutine is abandoned).
 //
